@@ -68,7 +68,7 @@ func (i *documentIndex) UpdateIndex(oplog ipfslog.Log, _ []ipfslog.Entry) error 
 					continue
 				}
 
-				handled[*item.GetKey()] = struct{}{}
+				handled[opDoc.GetKey()] = struct{}{}
 				i.index[opDoc.GetKey()] = opDoc.GetValue()
 			}
 
